@@ -599,6 +599,10 @@ func judgeEncodingResp(fin actions.RespLunarAction, o obs) *finding {
 		if !isInt || st != f.Status {
 			return &finding{"C07/encoding/M/status", fmt.Sprintf("action status %d, variable %v", f.Status, o.Vars[actions.StatusCodeActionName])}
 		}
+		if _, present := o.Vars[actions.ResponseBodyActionName]; !present {
+			// an unset variable is not an empty body: the proxy then keeps the provider's body
+			return &finding{"C07/encoding/M/body-variable-not-set", fmt.Sprintf("action body %q, but the body variable is not set at all (the proxy keeps the provider's body)", f.Body)}
+		}
 		if body, _ := asBytes(o.Vars[actions.ResponseBodyActionName]); body != f.Body {
 			return &finding{"C07/encoding/M/body", fmt.Sprintf("action body %q, variable %q", f.Body, body)}
 		}
